@@ -637,7 +637,6 @@ func c07kill(ctx context.Context, run *vkit.Run, base string, sc c07scenario, e 
 	_ = os.RemoveAll(dir)
 }
 
-
 // c07child: C07_CHILD=scenario,w,tail,k,h,dir — regenerate the same square (same seed), run the
 // scenario and die at marker k.
 func c07child(t *testing.T) {
